@@ -59,11 +59,28 @@ def judge(ctx, g, seen):
         try:
             from pytezos.context.impl import ExecutionContext
             from pytezos.operation.group import OperationGroup
-            og = OperationGroup(context=ExecutionContext(), contents=g['contents'], branch=g['branch'])
+            og = OperationGroup(context=ExecutionContext(), contents=[dict(c) for c in g['contents']], branch=g['branch'])
             got2 = bytes.fromhex(og.forge())
             ctx.count('OperationGroup_forge_calls')
             if got2 != want:
                 ctx.violation('C06|OperationGroup.forge-differs|' + feature(g, want, got2), got2.hex()[:200], case)
+            else:
+                # the same object after its content was edited in place (a fee bumped, another branch): forge() is about the
+                # group as it is now
+                import copy
+                g2 = copy.deepcopy(g)
+                from rv.model import base58 as B58
+                g2['branch'] = B58.encode(bytes(range(32)), 'B')
+                c0 = g2['contents'][0]
+                if 'fee' in c0:
+                    c0['fee'] = str(int(c0['fee']) + 1)
+                og.branch = g2['branch']
+                if 'fee' in og.contents[0]:
+                    og.contents[0]['fee'] = c0['fee']
+                got3 = bytes.fromhex(og.forge())
+                ctx.count('OperationGroup_forge_after_in_place_edit')
+                if got3 != OB.encode_group(g2):
+                    ctx.violation('C06|OperationGroup.forge-differs|after-in-place-edit', 'forged %s, the edited group encodes as %s' % (got3.hex()[:120], OB.encode_group(g2).hex()[:120]), dict(case, edited=g2))
         except Exception as e:
             ctx.violation('C06|OperationGroup.forge-raises|' + type(e).__name__, repr(e)[:300], case)
 
